@@ -1,9 +1,12 @@
 (* Properties/C07.v — C07: realtime entities merge order-independently into unique, sorted trips/vehicles.
    Proved here: the merge discipline of tripsById over ANY sequence of mentions (an in-message mention replaces, a bare one only
    creates or keeps), hence own-entity-wins wherever the entity sits, and bare entries for trips that are only referenced.
-   Order independence of the final lists and sortedness/uniqueness for all messages are decided on the real results by the
-   rt_merge engine (every message parsed in 5 entity orders; strict sortedness by TripID.Less; vehicle-id uniqueness). *)
-From GV Require Import Base.Prelude Model.RtTypes Model.RtWire Model.Realtime Proofs.RealtimeProofs.
+   and, for EVERY message and extension configuration, strict sortedness of the result's trips by TripID.Less (hence unique
+   identifiers) and of its id-bearing vehicles by the id comparator, id-less vehicles last.  Order independence of the final
+   lists under permutation of the entities is decided on the real results by the rt_merge engine (every message parsed in 5
+   entity orders) together with C06_realtime_order_free (no dependence on map iteration). *)
+From Coq Require Import Sorted.
+From GV Require Import Base.Prelude Model.RtTypes Model.RtWire Model.Realtime Proofs.RealtimeProofs Proofs.MergeProofs.
 
 Theorem C07_merge_characterised : forall k ms trips,
   glookup tk_eqb k (fold_left merge_trip ms trips) = final_trip k ms (glookup tk_eqb k trips).
@@ -33,6 +36,20 @@ Proof.
   intros. apply G. constructor.
 Qed.
 Print Assumptions C07_keys_unique.
+(* for every message: the trips come out strictly sorted by TripID.Less, so no two carry the same identifier *)
+Theorem C07_trips_strictly_sorted : forall cm tz cfg m,
+  StronglySorted (fun x y => trip_less (tr_key x) (tr_key y) = true) (rt_trips (parse_message cm tz cfg m)).
+Proof. exact trips_strictly_sorted. Qed.
+Print Assumptions C07_trips_strictly_sorted.
+Theorem C07_trip_ids_unique : forall cm tz cfg m, NoDup (map tr_key (rt_trips (parse_message cm tz cfg m))).
+Proof. exact trip_ids_unique. Qed.
+Print Assumptions C07_trip_ids_unique.
+(* the vehicles: id-bearing ones strictly sorted by (id, label, licence plate), then the id-less ones *)
+Theorem C07_vehicles_sorted : forall cm tz cfg m, exists withid idless : list rt_vehicle,
+  rt_vehicles (parse_message cm tz cfg m) = (withid ++ idless)%list /\
+  StronglySorted (fun x y => vcmp x y = true) withid /\ Forall (fun v => ve_id v <> None) withid /\ Forall (fun v => ve_id v = None) idless.
+Proof. exact vehicles_sorted_then_idless. Qed.
+Print Assumptions C07_vehicles_sorted.
 Example C07_example :
   let k := {| k_id := "t1"; k_route := ""; k_dir := 0; k_has_time := false; k_time := 0; k_has_date := false; k_date := zero_instant; k_rel := 0 |} in
   let own := {| tr_key := k; tr_stus := [{| su_seq := Some 1; su_stop := Some "A"; su_arr := None; su_dep := None; su_track := None; su_rel := 0 |}]; tr_vehicle := None; tr_in_msg := true |} in
